@@ -34,3 +34,36 @@ package bits
 //@   ensures 0 < n && n <= max ==> forall(k, 0, n, uint8(res >> uint(n-1-k)) & 1 == bitAt(r.buf, old(r.offset)+k))
 //@   ensures 0 < n && n <= max && n < 64 ==> res >> uint(n) == 0
 //@   ensures readerOK(r)
+
+//@ func (r *Reader) Read(n int) (res uint32)
+//@   requires readerOK(r) && n <= 8*len(r.buf) - r.offset
+//@   modifies r.offset
+//@   ensures (n <= 0 || n > 32) ==> res == 0 && r.offset == old(r.offset)
+//@   ensures 0 < n && n <= 32 ==> r.offset == old(r.offset) + n
+//@   ensures 0 < n && n <= 32 ==> forall(k, 0, n, uint8(res >> uint(n-1-k)) & 1 == bitAt(r.buf, old(r.offset)+k))
+//@   ensures 0 < n && n < 32 ==> res >> uint(n) == 0
+//@   ensures readerOK(r)
+
+// Exp-Golomb ue(v), H.264 9.1: k leading zero bits, a one bit, then k info bits; codeNum = 2^k - 1 + info.
+// ueOK(buf, o, k, res): at bit offset o there is such a code word with k leading zeros decoding to res.
+//@ spec func ueOK(buf []byte, o int, k int, res uint32) bool = 0 <= k && k <= 31 && forall(j, 0, k, bitAt(buf, o+j) == 0) && bitAt(buf, o+k) == 1 && (res + 1) >> uint(k) == 1 && forall(j, 0, k, uint8((res + 1) >> uint(k-1-j)) & 1 == bitAt(buf, o+k+1+j))
+
+//@ func (r *Reader) ReadUe() (res uint32)
+//@   requires readerOK(r) && r.offset + 65 <= 8*len(r.buf)
+//@   modifies r.offset
+//@   terminates
+//@   local i int
+//@   loop 0: modifies r.offset
+//@   loop 0: invariant readerOK(r) && 0 <= i && i <= 32 && r.offset == old(r.offset) + i && sameSlice(r.buf, old(r.buf))
+//@   loop 0: invariant forall(j, 0, i, bitAt(r.buf, old(r.offset)+j) == 0)
+//@   loop 0: decreases 33 - i
+//@   ensures readerOK(r) && (r.offset - old(r.offset)) % 2 == 1 && r.offset - old(r.offset) <= 65
+//@   ensures (r.offset - old(r.offset)) / 2 <= 31 ==> ueOK(r.buf, old(r.offset), (r.offset - old(r.offset)) / 2, res)
+
+// signed Exp-Golomb se(v), H.264 9.1.1: codeNum k maps to (-1)^(k+1) * ceil(k/2); stated through the inverse map
+//@ spec func seCode(v int32) uint32 = uint32(iteInt(v > 0, 2*int(v) - 1, -2*int(v)))
+//@ func (r *Reader) ReadSe() (res int32)
+//@   requires readerOK(r) && r.offset + 65 <= 8*len(r.buf)
+//@   modifies r.offset
+//@   ensures readerOK(r) && (r.offset - old(r.offset)) % 2 == 1
+//@   ensures (r.offset - old(r.offset)) / 2 <= 31 ==> ueOK(r.buf, old(r.offset), (r.offset - old(r.offset)) / 2, seCode(res))
